@@ -147,9 +147,9 @@ func c10SeqNum(h recordlayer.Header) []byte {
 func TestVerifC10Suite(t *testing.T) {
 	r := &c10Rand{s: c10Seed() ^ 0xc10c5}
 	out := newC10Out(t)
-	n := 60
+	n := 40
 	if c10Thorough() {
-		n = 3000
+		n = 1000
 	}
 	for i := 0; i < n; i++ {
 		// --- additional data, called directly (also with sequence numbers beyond 48 bits)
@@ -412,9 +412,9 @@ func c10CBC(t *testing.T, r *c10Rand, out *c10Out, withCID bool) {
 func TestVerifC10CCMMode(t *testing.T) {
 	r := &c10Rand{s: c10Seed() ^ 0xc10cc}
 	out := newC10Out(t)
-	n := 60
+	n := 40
 	if c10Thorough() {
-		n = 3000
+		n = 1000
 	}
 	for i := 0; i < n; i++ {
 		key := r.bytes(16 + 8*r.intn(3))
